@@ -249,6 +249,8 @@ class OrderedCadence(Cadence):
         self._check(v)
         if i < 0:
             i = len(self) + i
+        if not 0 <= i < len(self):
+            raise IndexError("Cadence assignment index out of range")
         if "order_label" not in v.metadata:
             v.add_metadata({"order_label": self.order[i]})
         self.frames[i] = v
